@@ -9,7 +9,7 @@ from cryptography.hazmat.primitives.keywrap import InvalidUnwrap
 from dpapi_ng import _asn1, _blob, _client, _crypto, _gkdi, _pkcs7
 
 from symex import values as V
-from vlib.api import harness
+from vlib.api import all_of, harness
 
 from . import blobmut, e2e, refs
 
@@ -45,7 +45,7 @@ def reader_any(c, fn, n):
 
 
 def _unit_params(tier):
-    return [dict(unit=u, n=n) for u in ("ContentInfo", "EnvelopedData", "ProtectionDescriptor", "content_decrypt") for n in ([3, 6] if tier == "quick" else [0, 2, 3, 4, 5, 6, 7, 8])]
+    return [dict(unit=u, n=n) for u in ("ContentInfo", "EnvelopedData", "ProtectionDescriptor", "content_decrypt") for n in ([3, 5] if tier == "quick" else [0, 2, 3, 4, 5, 6, 7, 8])]
 
 
 @harness(P, params=_unit_params, raises=ALLOWED, budget_violation=True, max_steps=20000,
@@ -73,11 +73,12 @@ def keyid_any(c, tail):
     return True
 
 
-@harness(P, params=lambda tier: [dict(pub=False, route="root"), dict(pub=False, route="seed"), dict(pub=True, route="root")], raises=ALLOWED, budget_violation=True, max_steps=60000,
+@harness(P, params=lambda tier: [dict(pub=False, route="root", quick=tier == "quick"), dict(pub=False, route="seed", quick=tier == "quick"),
+                                 dict(pub=True, route="root", quick=tier == "quick")], raises=ALLOWED, budget_violation=True, max_steps=60000,
          native_step_limit=300000,
          bounds="key-identifier fields of a blob driven through KeyCache._get_key -> GroupKeyEnvelope.get_kek -> compute_l2_key with the ideal KDF: L0 (4 classes: 0, 361, 2^31-1, >= 2^31), L1, L2 (all of [0,2^32) except the interior 2..29 of the valid range, which is C02's lattice) and flags symbolic; cache holds the root key (route=root) or a cached seed-key envelope at (L0=361, 3, 5) (route=seed); at most 67 KDF steps (2 root->L1(31), 63 down to (0,0), 2 for the KEK) on every path",
          outside="", must_reach=("at most 67 key-derivation steps",))
-def keyid_positions(c, pub, route):
+def keyid_positions(c, pub, route, quick):
     w = e2e.new_world(c)
     root = c.bytes("root", 64)
     cache = dpapi_ng.KeyCache()
@@ -92,10 +93,14 @@ def keyid_positions(c, pub, route):
     from vlib.api import any_of
     c.assume(any_of([l1 < 2, l1 > 29]))
     c.assume(any_of([l2 < 2, l2 > 29]))
+    if quick and pub:
+        c.assume(all_of([l1 > 29, l2 > 29]))  # quick tier, public-key mode: positions next to the root envelope only (short derivation chains)
     flags = c.int("flags", 0, (1 << 32) - 1)
     c.assume(((flags & 1) != 0) if pub else ((flags & 1) == 0))
     # L0 is a dictionary key inside KeyCache: fork over the interesting classes instead of 2^32 values
     cls = c.concretize(c.int("l0_class", 0, 3))
+    if quick and cls in (1, 2):
+        c.assume(False)  # quick tier: L0 classes 361 and >= 2^31 only
     l0v = [361, 0, (1 << 31) - 1, None][cls]
     if l0v is None:
         c.assume(l0 >= (1 << 31))
@@ -117,6 +122,8 @@ def _blob_params(tier):
         pos = blobmut.positions(tier, layout)
         if tier == "quick":
             pos = pos[1::7]
+            kid = blobmut.blob_layout(layout)["kid"]
+            pos = [q for q in pos if not (kid + 17 <= q < kid + 24)] + [kid + 16]  # one L1 octet in quick (256 derivation chains each), all in thorough
         out += [dict(kind="byte", p=p, layout=layout) for p in pos]
         n = blobmut.blob_layout(layout)["length"]
         cuts = range(0, n) if tier == "thorough" else sorted(set(list(range(7, n, 31)) + [1, 2, n - 1]))
